@@ -80,6 +80,14 @@ Definition recv_result (g g' : agg) (ev : list gev) : gres :=
       end
   end.
 
+(* what a long-polled contributor finally got on the wire (real rpc client): which path answered, what arrived *)
+Inductive wpath := PFull | PInsert (ok : bool).
+Inductive wres := WDiscard | WKeep | WError.
+Definition wres_of (e : gev) : wres :=
+  match e with GvAck _ | GvReject _ _ => WDiscard | GvKeep _ => WKeep | GvError _ => WError | GvInsert _ _ => WError end.
+Definition wres_eqb (a b : wres) : bool :=
+  match a, b with WDiscard, WDiscard | WKeep, WKeep | WError, WError => true | _, _ => false end.
+
 Inductive case :=
 (* one whole history of one agent shard: ops (times relative to base) with what each returned *)
 | CAgent (disk_on : bool) (base : Z) (ops : list aop) (obs : list aobs) (hist : list (Z * Z * bool)) (known : list (Z * Z))
@@ -88,7 +96,9 @@ Inductive case :=
 (* real advanceRecentBuckets: bucket times before, now, ShortWindow -> ready times, new recent times *)
 | CAdvance (base : Z) (times : list Z) (now sw : Z) (ready recent : list Z)
 (* real popOldestHistoricBucket: historic bucket times, oldestTime, window -> stale (sorted), popped, rest (sorted) *)
-| CPopHist (base : Z) (times : list Z) (oldest hw : Z) (stale : list Z) (popped : option Z) (rest : list Z).
+| CPopHist (base : Z) (times : list Z) (oldest hw : Z) (stale : list Z) (popped : option Z) (rest : list Z)
+(* real goTicker (+ real goInsert) over a real rpc connection: the answer the client received *)
+| CWire (p : wpath) (o : wres).
 
 Fixpoint insert_z (x : Z) (l : list Z) : list Z :=
   match l with [] => [x] | y :: r => if x <? y then x :: l else y :: insert_z x r end.
@@ -116,6 +126,8 @@ Definition ok (c : case) : bool :=
       list_eqb Z.eqb (sort_z (map b_time st)) (map (fun t => sh b t) stale)
       && match p, popped with Some x, Some y => b_time x =? sh b y | None, None => true | _, _ => false end
       && list_eqb Z.eqb (sort_z (map b_time rs)) (map (fun t => sh b t) rest)
+  | CWire p o =>
+      wres_eqb (wres_of (match p with PFull => full_answer (the_req 0 false) | PInsert k => insert_answer k (the_req 0 false) end)) o
   end.
 
 Definition mism := mismatches ok.
